@@ -558,3 +558,198 @@ _LIB.update({"datetime.datetime.now": dt_now, "datetime.timedelta": timedelta_ne
 _EXT_ATTR.update({"datetime": dt_attr, "timedelta": td_attr})
 _LIB_PREFIX.update({"dt.": dt_call, "td.": td_call})
 _EXT_MAKE.update({"datetime": make_ext_datetime, "timedelta": make_ext_timedelta})
+
+
+# ===============================================================================================
+# asyncio: queue, transport, wait_for, sleep, create_connection (environment contracts, DESIGN 3.4)
+# ===============================================================================================
+
+def make_queue(I, cs, typ, name):
+    """ext:queue[:<spec predicate assumed for every queued element>]"""
+    from . import symlist
+    parts = typ.split(":")
+    items = symlist.make(I, cs, "bytes", name + "_items")
+    q = ext_obj(I, "queue", items=items, head=mkint(0), pred=parts[1] if len(parts) > 1 else None, cs=cs, name=name)
+    return q
+
+
+def new_queue(I, fv, args, kw):
+    from . import symlist
+    items = symlist.make(I, I.contracts, "bytes", "queue_items", length=mkint(0))
+    return ext_obj(I, "queue", items=items, head=mkint(0), pred=None, cs=I.contracts, name="queue")
+
+
+def queue_attr(I, ref, o, name):
+    from .interp import VBuiltin
+    return VBuiltin("queue." + name, ref)
+
+
+def _queue_elem(I, o, idx):
+    from . import symlist
+    items = o.meta["items"]
+    e = symlist.elem(I, items, I.hobj(items), idx)
+    pred = o.meta.get("pred")
+    key = ("qpred", items.ref, B.vkey(I, idx))
+    if pred and key not in I.path.facts_done:
+        I.path.facts_done.add(key)
+        cs = o.meta["cs"]
+        m = cs.module_defining(pred)
+        from .interp import Frame
+        t = ops.truth(I, I.call(I.module_get(m, pred), [e], {}))
+        I.path.assume(t.term())
+    return e
+
+
+def _queue_size(I, o):
+    n = I.hobj(o.meta["items"]).meta["len"]
+    return ops._arith(I, "-", n, o.meta["head"])
+
+
+def queue_call(I, fv, args, kw):
+    used(I, "asyncio.Queue: FIFO; get_nowait raises QueueEmpty iff empty; get() returns the oldest item or, when empty, waits for the next item the protocol queues")
+    o = I.hobj(fv.self_val)
+    name = fv.name.split(".")[-1]
+    from . import symlist
+    if name == "put_nowait":
+        symlist.method(I, o.meta["items"], I.hobj(o.meta["items"]), "append", [args[0]], {})
+        I.path.ghost.setdefault("events", {}).setdefault("queued", []).append(args[0])
+        return NONE
+    if name == "get_nowait":
+        size = _queue_size(I, o)
+        empty = ops.int_cmp("<=", size, mkint(0))
+        if empty.c is True or (empty.c is None and I.path.branch(empty.t, "queue_empty")):
+            I.raise_py("asyncio.QueueEmpty", "empty")
+        e = _queue_elem(I, o, o.meta["head"])
+        o.meta["head"] = ops._arith(I, "+", o.meta["head"], mkint(1))
+        return e
+    if name == "get":
+        from .interp import VCoro
+
+        def thunk():
+            size = _queue_size(I, o)
+            empty = ops.int_cmp("<=", size, mkint(0))
+            if empty.c is True or (empty.c is None and I.path.branch(empty.t, "queue_empty")):
+                # blocks until data_received queues the next item: an arbitrary new element
+                items = I.hobj(o.meta["items"])
+                items.meta["len"] = ops._arith(I, "+", items.meta["len"], mkint(1))
+            e = _queue_elem(I, o, o.meta["head"])
+            o.meta["head"] = ops._arith(I, "+", o.meta["head"], mkint(1))
+            return e
+        return VCoro(thunk)
+    if name == "empty":
+        return ops.int_cmp("<=", _queue_size(I, o), mkint(0))
+    if name == "qsize":
+        return _queue_size(I, o)
+    raise Unsupported(f"queue method {name}")
+
+
+def make_transport(I, cs=None, typ=None, name="transport"):
+    return ext_obj(I, "transport", closing=VBool(t=z3.Bool(fresh(name + "_closing"))), name=name)
+
+
+def transport_attr(I, ref, o, name):
+    from .interp import VBuiltin
+    return VBuiltin("transport." + name, ref)
+
+
+def transport_call(I, fv, args, kw):
+    o = I.hobj(fv.self_val)
+    name = fv.name.split(".")[-1]
+    ev = I.path.ghost.setdefault("events", {})
+    if name == "is_closing":
+        used(I, "transport.is_closing(): current value of the transport's closing flag (set by close(); the peer may set it at any await)")
+        return o.meta["closing"]
+    if name == "write":
+        used(I, "transport.write(b): hands b to the peer's byte stream in call order, raises nothing")
+        ev.setdefault("tx", []).append(args[0])
+        ev.setdefault("tx_on", []).append(fv.self_val)
+        return NONE
+    if name == "close":
+        o.meta["closing"] = B.TRUE
+        ev.setdefault("closed", []).append(fv.self_val)
+        return NONE
+    if name == "get_extra_info":
+        return VTuple([I.opaque_str("peerhost", fv.self_val.ref), B.opaque_int(I, "peerport", [fv.self_val], 0, 65535)])
+    if name == "sendto":
+        ev.setdefault("sendto", []).append(VTuple(list(args)))
+        return NONE
+    raise Unsupported(f"transport method {name}")
+
+
+def env_step(I):
+    """something may have happened while the coroutine was suspended: transports may have started closing"""
+    for ref, o in list(I.path.heap.items()):
+        if o.kind == "ext" and o.meta.get("tag") == "transport":
+            c = o.meta["closing"]
+            if c.c is True:
+                continue
+            o.meta["closing"] = VBool(t=z3.Or(c.term(), z3.Bool(fresh("peer_closed"))))
+
+
+def _cancellable(I):
+    c = I.contracts.contracts.get(I.verifying) if I.contracts and I.verifying else None
+    return c is not None and getattr(c, "cancellation", False)
+
+
+def asyncio_wait_for(I, fv, args, kw):
+    used(I, "asyncio.wait_for(aw, t): the awaitable's result/exception, or asyncio.TimeoutError (or CancelledError when the contract models cancellation)")
+    from .interp import VCoro
+    aw = args[0]
+
+    def thunk():
+        outcomes = ["result", "timeout"] + (["cancel"] if _cancellable(I) else [])
+        k = I.path.choose(len(outcomes), "wait_for")
+        env_step(I)
+        if outcomes[k] == "result":
+            return I.await_(aw)
+        if outcomes[k] == "timeout":
+            I.raise_py("builtins.TimeoutError", "timeout")
+        I.raise_py("asyncio.CancelledError", "cancelled")
+    return VCoro(thunk)
+
+
+def asyncio_sleep(I, fv, args, kw):
+    from .interp import VCoro
+
+    def thunk():
+        env_step(I)
+        if _cancellable(I) and I.path.choose(2, "sleep_cancel") == 1:
+            I.raise_py("asyncio.CancelledError", "cancelled")
+        return NONE
+    return VCoro(thunk)
+
+
+def asyncio_get_event_loop(I, fv, args, kw):
+    return ext_obj(I, "loop")
+
+
+def loop_attr(I, ref, o, name):
+    from .interp import VBuiltin
+    return VBuiltin("loop." + name, ref)
+
+
+def loop_call(I, fv, args, kw):
+    name = fv.name.split(".")[-1]
+    from .interp import VCoro
+    if name == "create_connection":
+        used(I, "loop.create_connection(factory, host, port): OSError, or (transport, factory()) after protocol.connection_made(transport)")
+        factory = args[0]
+
+        def thunk():
+            if I.path.choose(2, "connect") == 1:
+                I.raise_py("builtins.ConnectionRefusedError", "connect failed")
+            proto = I.call(factory, [], {})
+            tr = make_transport(I)
+            I.hobj(tr).meta["closing"] = B.FALSE
+            I.call(I.getattr_(proto, "connection_made"), [tr], {})
+            I.path.ghost.setdefault("events", {}).setdefault("connected", []).append(proto)
+            return VTuple([tr, proto])
+        return VCoro(thunk)
+    raise Unsupported(f"loop method {name}")
+
+
+_LIB.update({"asyncio.Queue": new_queue, "asyncio.wait_for": asyncio_wait_for, "asyncio.sleep": asyncio_sleep,
+             "asyncio.get_event_loop": asyncio_get_event_loop})
+_EXT_ATTR.update({"queue": queue_attr, "transport": transport_attr, "loop": loop_attr})
+_LIB_PREFIX.update({"queue.": queue_call, "transport.": transport_call, "loop.": loop_call})
+_EXT_MAKE.update({"queue": make_queue, "transport": make_transport})
